@@ -361,6 +361,22 @@ pub fn guarded<T>(f: impl FnOnce() -> T) -> std::thread::Result<T> {
     r
 }
 
+/// like `guarded`, on a helper thread and with a deadline: code under comparison that does not return within `secs` seconds
+/// is abandoned (its thread keeps spinning until the process ends - a check stops after a handful of violations) and reported
+/// as `Err(None)`; a panic is `Err(Some(()))`
+pub fn guarded_with_deadline<T: Send + 'static>(secs: u64, f: impl FnOnce() -> T + Send + 'static) -> Result<T, Option<()>> {
+    let (tx, rx) = std::sync::mpsc::channel();
+    let _ = std::thread::Builder::new().name("code-under-comparison".into()).spawn(move || {
+        let r = guarded(f);
+        let _ = tx.send(r);
+    });
+    match rx.recv_timeout(std::time::Duration::from_secs(secs)) {
+        Ok(Ok(v)) => Ok(v),
+        Ok(Err(_)) => Err(Some(())),
+        Err(_) => Err(None),
+    }
+}
+
 // seams of the vendored crates ---------------------------------------------------------------
 
 #[no_mangle]
